@@ -49,6 +49,9 @@ def decls(tier):
     for tag in ("alias", "alias-from", "alias-both", "ci-alias", "alias-no-output", "ci"):
         out.append(("Schema-sub", (tag,)))
         out.append(("Schema-sub", (tag, "alias-from")))
+    # a subclass that only turns case_insensitive on and inherits a mixed-case field (userName) of a case-sensitive base
+    for tag in ("req", "optional", "alias", "alias-from", "default"):
+        out.append(("Schema-subci", (tag,)))
     # function declarations: the same menu as keyword parameters (fields that make no sense for functions are
     # rejected at declaration time by utype and counted)
     seen = set()
@@ -115,6 +118,11 @@ def build(base, fields, cexpr):
             (f"    __options__ = Options({cexpr})\n" if cexpr else "") + f"    {fields[0].name}: int = 9\n"
         exec(src, env)
         return env["S"], src
+    if base == "Schema-subci":
+        o = ", ".join(p for p in ("case_insensitive=True", cexpr) if p)
+        src = M.class_source("Schema", fields, "", name="B0") + f"class S(B0):\n    __options__ = Options({o})\n    extra: int = 0\n"
+        exec(src, env)
+        return env["S"], src
     src = M.class_source(base, fields, cexpr)
     exec(src, env)
     return env["S"], src
@@ -164,10 +172,14 @@ def run_shard(shard, tier):
     acc = Acc()
     for base, tags in decls(tier)[lo:hi]:
         fields = c05.bind_fields(tags)
+        if base == "Schema-subci":
+            fields = [M.MENU_BY_TAG[t].bind("userName" if i == 0 else "b", None) for i, t in enumerate(tags)]
         for ci, ri in c05.optsets(tier, len(tags)):
             cexpr, copts = M.OPTION_SETS[ci]
             if "data_first_search" in copts:
                 continue      # the strategy is this check's own variable
+            if base == "Schema-subci" and ("case_insensitive" in copts or ri is not None):
+                continue
             if base.startswith("func") and any(k in copts for k in ("no_default", "defer_default")):
                 continue      # documented as data-class only
             rexpr = None if ri is None else M.OPTION_SETS[ri][0]
@@ -312,7 +324,8 @@ def _script(base, src, cexpr, rexpr, tags, items):
         "import sys", "sys.path.insert(0, '/verif')", "from utmc.ns import *",
         "from utmc.props import c05, c06",
         f"tags = {tags!r}; items = {items!r}",
-        "fields = c05.bind_fields(tags)",
+        "fields = c05.bind_fields(tags)" if base != "Schema-subci" else
+        "fields = [c06.M.MENU_BY_TAG[t].bind('userName' if i == 0 else 'b', None) for i, t in enumerate(tags)]",
         f"obj, src = c06.build({base!r}, fields, {cexpr!r})",
         "print(src)",
         "acc = c06.Acc()",
